@@ -3,7 +3,8 @@
    All theorems hold for every field K (Qc executable, R), all sizes n, m, t and all histories. *)
 From Coq Require Import Arith List ZArith QArith Qcanon.
 From GPV Require Import Base.LinAlg Base.Exec Models.C01_posterior Proofs.C01_posterior
-  Models.C04_fantasy Proofs.C04_fantasy.
+  Models.C04_fantasy Proofs.C04_fantasy Models.C08_shape Models.C04_mtshape Proofs.C04_mtshape
+  Models.C04_wiski Proofs.C04_wiski.
 Import ListNotations.
 
 (* [a; b] (fant_cache_upper / fant_cache_lower) solves the bordered system
@@ -131,6 +132,65 @@ Theorem c04_source_frame :
     o_targets src' = o_targets src /\ o_lik src' = o_lik src /\ o_params src' = o_params src.
 Proof. exact (@source_frame). Qed.
 Print Assumptions c04_source_frame.
+
+(* ---- multitask fantasies (Models/C04_mtshape.v).  Rows are (point, task), interleaved: the m fantasy points
+   occupy the contiguous rows nT .. (n+m)T-1, so the theorems above apply with n := nT, m := mT *)
+Theorem c04_multitask_rows_contiguous :
+  forall T n j a, mt_row T (n + j)%nat a = (n * T + mt_row T j a)%nat.
+Proof. exact mt_rows_contiguous. Qed.
+Print Assumptions c04_multitask_rows_contiguous.
+Theorem c04_multitask_row_injective :
+  forall T i a i' a', (a < T)%nat -> (a' < T)%nat -> mt_row T i a = mt_row T i' a' -> i = i' /\ a = a'.
+Proof. exact mt_row_inj. Qed.
+Print Assumptions c04_multitask_row_injective.
+(* full statement wanted by the property: for every batch shape B, m and T the right-hand side of the small system
+   `targets - fant_mean - ftcm` is the B x mT vector of the bordered system.  The code's broadcasting refutes it
+   (recorded finding C04-multitask-fantasy-shapes; replayed on /repo by the driver's multitask histories): *)
+Theorem c04_multitask_rhs_shape_refuted :
+  exists B m T, mt_rhs_shape_code B m T <> Some (mt_rhs_shape_spec B m T).
+Proof. exact mt_rhs_shape_refuted. Qed.
+Print Assumptions c04_multitask_rhs_shape_refuted.
+(* ... it raises for EVERY m >= 2, T >= 2 (no batch), and for a single point it yields a spurious leading
+   dimension (the 1 x (n+1)T carried mean cache the driver observes) *)
+Theorem c04_multitask_rhs_shape_raises :
+  forall m T, (2 <= m)%nat -> (2 <= T)%nat -> mt_rhs_shape_code [] m T = None.
+Proof. exact mt_rhs_shape_raises. Qed.
+Print Assumptions c04_multitask_rhs_shape_raises.
+Theorem c04_multitask_rhs_shape_single_point_partial :
+  forall T, mt_rhs_shape_code [] 1%nat T = Some [1%nat; T].
+Proof. exact mt_rhs_shape_single_point. Qed.
+Print Assumptions c04_multitask_rhs_shape_single_point_partial.
+(* the proposed patch (flatten both operands first) gives the specified shape for all B, m, T *)
+Theorem c04_multitask_rhs_shape_fixed :
+  forall B m T, mt_rhs_shape_fixed B m T = Some (mt_rhs_shape_spec B m T).
+Proof. exact mt_rhs_shape_fixed_ok. Qed.
+Print Assumptions c04_multitask_rhs_shape_fixed.
+
+(* ---- KISS-GP / WISKI fantasy update (Models/C04_wiski.v).  Full statement wanted: the posterior computed from the
+   updated interpolation-space caches equals the C01 posterior of the SKI kernel W K_uu W^T on the concatenated data.
+   PARTIAL: proved here is that the two caches the fantasy strategy carries are, after the additive update, exactly
+   the caches of the concatenated data (all n, m, grid sizes g, any noise inverses); the step from the caches to the
+   posterior (Woodbury identity, root decompositions of the g x g system) is not proved — it is covered by the
+   correspondence check (KISS-GP histories vs the closed form on the implementation's own SKI kernel, tol 1e-6). *)
+Theorem c04_wiski_inner_update_partial :
+  forall (K : Fld) g n m W Wf Dinv Dfinv,
+    meq g g (wiski_inner (n + m) (vstack n W Wf) (blkdiag n Dinv Dfinv))
+            (wiski_inner_update m (wiski_inner n W Dinv) Wf Dfinv).
+Proof. intros K. exact (@wiski_inner_update_correct K). Qed.
+Print Assumptions c04_wiski_inner_update_partial.
+Theorem c04_wiski_resp_update_partial :
+  forall (K : Fld) g n m W Wf Dinv Dfinv r rf,
+    meq g 1 (wiski_resp (n + m) (vstack n W Wf) (blkdiag n Dinv Dfinv) (vstack n r rf))
+            (wiski_resp_update m (wiski_resp n W Dinv r) Wf Dfinv rf).
+Proof. intros K. exact (@wiski_resp_update_correct K). Qed.
+Print Assumptions c04_wiski_resp_update_partial.
+(* blkdiag of the two noise inverses is the inverse of the noise of the concatenated data *)
+Theorem c04_blkdiag_inverse :
+  forall (K : Fld) n m D Dinv Df Dfinv,
+    is_inverse n D Dinv -> is_inverse m Df Dfinv ->
+    is_inverse (n + m) (blkdiag n D Df) (blkdiag n Dinv Dfinv).
+Proof. intros K. exact (@blkdiag_inverse K). Qed.
+Print Assumptions c04_blkdiag_inverse.
 
 (* ---- non-vacuity: the hypotheses are met by concrete instances -------------------------- *)
 
